@@ -4,6 +4,7 @@ import FlVerif.Op.Consequent
 import FlVerif.Lemmas.Consequent
 import FlVerif.Gen.SetterGen
 import FlVerif.Lemmas.CodeConsequent
+import FlVerif.Lemmas.CodeDegreeRule
 
 /-! # C07 — each conclusion of a triggered rule contributes exactly its own activation
 
@@ -192,6 +193,64 @@ theorem code_modify (san : X ℚ → X ℚ) (impl : String) (d : X ℚ) :
       ∃ σ, Gen.Code.Consequent_modify.run san impl d (cs.map Py.Cons.ofConcl) {} = .ok σ ∧
         σ.out = modifyPinned san impl d cs) :=
   ⟨Op.Consequent.code_modify san impl d, Op.Consequent.code_modify_loaded san impl d⟩
+
+/-! ## the methods of `Rule` around it
+
+`Gen.Code.Rule_is_loaded_flags / Rule_deactivate / Rule_activate_with / Rule_trigger` are regenerated from the source of the four
+methods of `Rule` on every run.  The translated activation methods of C08 use `Op.Activation.deactivate / activateWith /
+trigger` for these calls; the theorems below close that gap.  A rule object is what the method reads (`loaded` - the value of
+`self.is_loaded()` -, `enabled`, `weight`, the field `activation_degree`) and the two fields it writes; the callees
+`antecedent.activation_degree` and `consequent.modify` are their own translations (`C06.code_activationDegree`,
+`code_modify`). -/
+
+/-- `Rule.is_loaded` is the conjunction of `antecedent.is_loaded()` and `consequent.is_loaded()` -/
+theorem code_isLoaded (a c : Bool) : ∃ σ, Gen.Code.Rule_is_loaded_flags.run a c {} = .ok σ ∧ σ.ret = some (a && c) :=
+  Op.Activation.code_isLoaded a c
+
+/-- **Tie A.**  `Rule.deactivate` = `Op.Activation.deactivate`: whatever the two fields held before (the state `σ₀`),
+    degree 0, not triggered, nothing else written -/
+theorem code_deactivate (r : Spec.Activation.Rule ℚ) (σ₀ : Gen.Code.Rule_deactivate.S) :
+    ∃ σ, Gen.Code.Rule_deactivate.run σ₀ = .ok σ ∧
+      { r with actDegree := σ.self_activation_degree, triggered := σ.self_triggered } = Op.Activation.deactivate r :=
+  Op.Activation.code_deactivate r σ₀
+
+/-- **Tie A.**  `Rule.activate_with` on a rule with weight `w` whose antecedent is the loaded tree `a` (evaluated by the
+    translated `Antecedent.activation_degree`, `ante`): a rule that is not loaded raises `RuntimeError`;
+    a loaded one - when every variable of the antecedent has a term - raises what the model `Op.activateWith` predicts and
+    otherwise stores and returns the model's value `w × degree`, which is what `Op.Activation.activateWith` copies from
+    the field `degree` of its rule; when a variable has lost its terms it passes on the `ValueError` of the antecedent
+    (`C06.code_activationDegree`). -/
+theorem code_activateWith (c : Lang.DegCtx ℚ) (hasTerms : String → Bool) (w : X ℚ) (a : Op.ANode) :
+    -- what `self.antecedent.activation_degree(conjunction, disjunction)` returns or raises
+    let ante : Py.M (X ℚ) :=
+      Gen.Code.Antecedent_activation_degree.run c hasTerms (Py.Deg.ofANode a) c.conj c.disj .none {} >>= fun s =>
+        Py.deref s.ret
+    Gen.Code.Rule_activate_with.run false w ante {} = .error .runtime ∧
+    if (Py.Deg.varsOf a).all hasTerms then
+      match Op.activateWith c w a with
+      | .error k => Gen.Code.Rule_activate_with.run true w ante {} = .error k.toPy
+      | .ok d => ∃ σ, Gen.Code.Rule_activate_with.run true w ante {} = .ok σ ∧
+          σ.ret = some d ∧ σ.self_activation_degree = d ∧
+          ∀ r : Spec.Activation.Rule ℚ, r.degree = d →
+            { r with actDegree := σ.self_activation_degree } = Op.Activation.activateWith r
+    else Gen.Code.Rule_activate_with.run true w ante {} = .error .value :=
+  Op.Activation.code_activateWith c hasTerms w a
+
+/-- **Tie A.**  `Rule.trigger` (`triggered₀`: the value of the field `triggered` before the call): a rule that is not
+    loaded raises `RuntimeError` (after resetting `triggered`); a loaded rule with the conclusions `cs` sets `triggered` and appends the activated terms exactly as `Op.Consequent.trigger`
+    says (nothing for a disabled rule; `degree > 0` and the output of `Consequent.modify` for an enabled one), leaves the
+    degree as it was, and calls `consequent.modify` with the degrees that `Op.Activation.trigger` lists. -/
+theorem code_trigger (san : X ℚ → X ℚ) (impl : String) (enabled : Bool) (d : X ℚ) (triggered₀ : Bool) :
+    (∀ ps : List Py.Cons.Proposition,
+      Gen.Code.Rule_trigger.run san impl false enabled d ps { self_triggered := triggered₀ } = .error .runtime) ∧
+    (∀ cs : List (Concl (X ℚ)), cs ≠ [] →
+      ∃ σ, Gen.Code.Rule_trigger.run san impl true enabled d (cs.map Py.Cons.ofConcl) { self_triggered := triggered₀ }
+          = .ok σ ∧
+        (σ.self_triggered, σ.out) = Op.Consequent.trigger san (X.lt (.fin 0)) enabled d impl cs ∧
+        σ.self_activation_degree = d ∧
+        ∀ (i : Nat) (r : Spec.Activation.Rule ℚ), r.enabled = enabled → r.actDegree = d →
+          ({ r with triggered := σ.self_triggered }, σ.calls.map (fun x => (i, x))) = Op.Activation.trigger i r) :=
+  Op.Activation.code_trigger san impl enabled d triggered₀
 
 /-! ## the sanitiser of `Activated.degree` and the F3 witness, at `X ℚ` -/
 
